@@ -316,36 +316,50 @@ def rule_atomic_exclusive_save(ctx: Ctx, out: Collector) -> None:
     """FS-8: write-once between contexts that share a directory needs an exclusive create (mode 'x' / os.O_EXCL / link), and
     "a failed save does not make the key appear saved" needs the final name to appear only when the value is complete (write to
     a temporary name, then link / rename).  Decided on the open mode(s) of save and on where it writes."""
-    from .fs import _store_class
+    from .fw import rule_exclusive_and_atomic_worlds
+    return rule_exclusive_and_atomic_worlds(ctx, out)
+    from .fs import _store_class          # the reading of modes and names, kept for reference
     p = ctx.p
     st = _store_class(ctx)
     save = st.methods.get('save')
     if save is None:
         raise AnalysisError('store.save not found (FS-8 anchor vanished)')
-    src = unparse(save.node)
-    opens = [c for c in ast.walk(save.node) if isinstance(c, ast.Call) and isinstance(c.func, ast.Attribute) and c.func.attr == 'open'
+    # save and the in-repo helpers it is split into (methods of the store, functions of its module)
+    units, todo = [], [save]
+    while todo:
+        u = todo.pop()
+        if u in units or len(units) > 16:
+            continue
+        units.append(u)
+        env = FuncEnv.of(p, u)
+        for c in env.own_nodes():
+            if isinstance(c, ast.Call):
+                todo.extend(t[1] for t in env.resolve_call(c) if t[0] == 'func' and t[1].module is save.module and t[1].name != 'load')
+    src = '\n'.join(unparse(u.node) for u in units)
+    opens = [c for u in units for c in ast.walk(u.node) if isinstance(c, ast.Call) and isinstance(c.func, ast.Attribute) and c.func.attr == 'open'
              or isinstance(c, ast.Call) and isinstance(c.func, ast.Name) and c.func.id == 'open']
     if not opens:
         raise AnalysisError('store.save opens no file (FS-8 anchor vanished)')
     modes = set()
-    for n in ast.walk(save.node):
-        if isinstance(n, ast.Constant) and isinstance(n.value, str) and n.value in ('w', 'wb', 'x', 'xb', 'a', 'ab', 'w+', 'wb+'):
-            modes.add(n.value)
+    for u in units:
+        for n in ast.walk(u.node):
+            if isinstance(n, ast.Constant) and isinstance(n.value, str) and n.value in ('w', 'wb', 'x', 'xb', 'a', 'ab', 'w+', 'wb+'):
+                modes.add(n.value)
     exclusive = bool(modes) and all(m.startswith('x') for m in modes) or 'O_EXCL' in src or '.link(' in src or 'os.link' in src
     atomic = any(k in src for k in ('.rename(', '.replace(', 'os.replace', 'os.rename', '.link(', 'os.link', 'NamedTemporaryFile', 'mkstemp'))
     cons = f'{st.module.name}::{st.name}.save::the key is created exclusively [exclusive create]'
     if exclusive:
-        out.ok('FS-8', cons, p.loc(save, opens[0]), f'modes {sorted(modes)}')
+        out.ok('FS-8', cons, p.loc(save, save.node), f'modes {sorted(modes)}')
     else:
-        out.bad('FS-8', cons, p.loc(save, opens[0]), f'save tests for the key and then opens the final file with a truncating mode '
+        out.bad('FS-8', cons, p.loc(save, save.node), f'save tests for the key and then opens the final file with a truncating mode '
                 f'({sorted(modes)}): two contexts sharing (model, pipeline id) and directory both save the same fresh key (the second '
                 f'overwrites what the first acknowledged), and the clean-up of a failing save unlinks a file another context wrote; '
                 f'the directory is created the same way (exists, then mkdir without exist_ok: FileExistsError)')
     cons = f'{st.module.name}::{st.name}.save::the key appears only with its complete value [atomic publish]'
     if atomic:
-        out.ok('FS-8', cons, p.loc(save, opens[0]), 'written under a temporary name and published by link / rename')
+        out.ok('FS-8', cons, p.loc(save, save.node), 'written under a temporary name and published by link / rename')
     else:
-        out.bad('FS-8', cons, p.loc(save, opens[0]), 'the value is written in place into the final file, whose existence is the "saved" '
+        out.bad('FS-8', cons, p.loc(save, save.node), 'the value is written in place into the final file, whose existence is the "saved" '
                 'state: a concurrent load sees a half-written artifact (EOFError), and a writer that dies inside save leaves the key '
                 'neither loadable nor savable for ever')
 
@@ -451,27 +465,23 @@ def rule_pool_fetch_outside_retry(ctx: Ctx, out: Collector) -> None:
     re-checked) by the dispatcher, which the retry loop calls inside its protected region: the error is retried `attempts`
     times and finally replaced by get_default (or contained by a one-of) - the run returns a value with error None although
     no pool body ran."""
-    from .ex import RUN_NODE
-    from .rt import _retry_loop
+    from .rw import pool_missing_observations, retry_entry, _show
     p = ctx.p
-    unit, g, head = _retry_loop(ctx)
-    run_node = p.func(RUN_NODE)
-    fetches = [c for c in ast.walk(run_node.node) if isinstance(c, ast.Call) and isinstance(c.func, ast.Attribute)
-               and c.func.attr in ('get_pool_executor', 'is_ready')]
-    env = FuncEnv.of(p, unit)
-    protected_calls = []
-    for t in ast.walk(head.node):
-        if isinstance(t, ast.Try):
-            for st in t.body:
-                for c in ast.walk(st):
-                    if isinstance(c, ast.Call) and any(x[0] == 'func' and x[1] is run_node for x in env.resolve_call(c)):
-                        protected_calls.append(c)
+    unit = retry_entry(ctx)
     cons = f'{unit.module.name}::{unit.qualname}::a missing pool is not handled as a failure of the node body [pool fetch outside the retry]'
-    if not fetches:
-        out.ok('EX-11', cons, p.loc(unit, head.node), 'the dispatcher does not fetch the pool itself')
-    elif not protected_calls:
-        out.ok('EX-11', cons, p.loc(unit, head.node), 'the dispatcher is not called inside the protected region')
+    problems, table = [], {}
+    for i, o in enumerate(pool_missing_observations(ctx)):
+        oc = o['outcome']
+        table[f'world {i + 1}'] = f'{_show(oc)} | body x{len(o["log"]["body"])}, default x{len(o["log"]["default"])}, sleeps {o["log"]["sleep"]}'
+        if o['log']['body']:
+            raise AnalysisError('EX-11: the body runs although no pool is registered (the world does not model the registries)')
+        if not (oc and oc[0] == 'raise') or o['log']['default'] or o['log']['sleep']:
+            problems.append(table[f'world {i + 1}'])
+    if not problems:
+        out.ok('EX-11', cons, p.loc(unit, unit.node), 'with no pool registered the run of a pool node ends at once with the engine\'s error: '
+               'not retried, not replaced by the default', table=table)
     else:
-        out.bad('EX-11', cons, p.loc(unit, protected_calls[0]), 'run_node() fetches the pool (get_pool_executor -> is_ready raises RuntimeError when '
+        out.bad('EX-11', cons, p.loc(unit, unit.node), 'run_node() fetches the pool (get_pool_executor -> is_ready raises RuntimeError when '
                 'the pool was shut down or broke after the start-of-run check) inside the try of the retry loop: the engine\'s own error is '
-                'retried and replaced by get_default / contained by a one-of - value=-999, error=None, no pool body ran')
+                'retried and replaced by get_default / contained by a one-of - value=-999, error=None, no pool body ran '
+                f'(interpreted with attempts 3, delay 1, use_default: {problems[0]})', table=table)
